@@ -11,6 +11,8 @@ structure St where
   upgrade : Option Script := none
   /-- `onResponseSuppressed`: returns false / true, or throws a std / non-std exception -/
   suppressHook : Seam Bool := .ret false
+  /-- `onUpgradedData` as called by the upgrade arm's buffer drain -/
+  drainHook : Seam Unit := .ret ()
   /-- the worker-pool model (`parr` / `prel` / `pdrain` ops) -/
   pool : Pool := {}
   /-- gate of each unfinished task, aligned with `pool.tasks` (`none` = the request reaches no handler) -/
@@ -66,7 +68,8 @@ def mkServer (st : St) : Server :=
       | some sc =>
         let o := runScript sc req {}
         if o.threw then .threw (!o.nonStd) else .ret (some o.res),
-    suppressHook := fun _ _ => st.suppressHook }
+    suppressHook := fun _ _ => st.suppressHook,
+    drainHook := st.drainHook }
 
 def parseSess : String → Option (Option SessionInfo)
   | "-" => some none
@@ -75,13 +78,22 @@ def parseSess : String → Option (Option SessionInfo)
   | "nka" => some (some { connectionKeepAlive := false })
   | _ => none
 
-/-- env as 6 bits: shutdownAtEntry transportAtEntry flipDuringUserCode enqueueOk upAtClose transportAtSend -/
-def parseEnv (bits : String) (sess : Option SessionInfo) (userCode : Bool) : Option Env :=
+/-- env as 6 bits: shutdownAtEntry transportAtEntry flipDuringUserCode enqueueOk upAtClose transportAtSend.  The harness
+    realises `upAtClose = false` in the shutdown arm by resetting `_transport` right after the Send (`stop()` between the arm's
+    two `_mutex` sections), and `upAtSend = false` by a null transport / a `_shutdown` flag that stays set, so the guard of a later close block
+    fails as well; `buffered` = bytes were placed behind the request in an existing session's read buffer. -/
+def parseEnv (bits : String) (sess : Option SessionInfo) (userCode : Bool) (buffered : Bool) : Option Env :=
   match bits.toList.map (fun c => c == '1') with
   | [sh, tr, flip, enq, upc, trs] =>
-    some { shutdownAtEntry := sh, transportAtEntry := tr, upAtSend := trs && !(flip && userCode), enqueueOk := enq,
-           upAtClose := upc, sess := sess }
+    let upSend := trs && !(flip && userCode)
+    some { shutdownAtEntry := sh, transportAtEntry := tr, transportAtShutdownClose := upc, upAtSend := upSend, enqueueOk := enq,
+           upAtClose := upc && upSend, sess := sess, bufferedAtUpgrade := buffered && sess.isSome }
   | _ => none
+
+/-- the answer line of a `req` op: the outcome, except that a lone Close has its own word -/
+def showProcess (srv : Server) (env : Env) (d : Bytes) : String :=
+  let t := processCalls srv env d
+  if t.1 = [.close] then "closeonly" else showOutcome (outcomeOf env t)
 
 def poolParams (st : St) : Params :=
   { w := Gen.HttpRespond.poolMax, qcap := Gen.HttpRespond.poolQueueCap,
@@ -237,15 +249,42 @@ def step (st : St) : List String → St × String
     match ofHex hx, parseSess sess with
     | some d, some si =>
       let srv := mkServer st
-      match parseEnv bits si (reachesUserCode srv d) with
-      | some env => (st, showOutcome (process srv env d))
+      match parseEnv bits si (reachesUserCode srv d) false with
+      | some env => (st, showProcess srv env d)
       | none => (st, "bad-op")
     | _, _ => (st, "bad-op")
+  | ["req", hx, bits, sess, residual] =>
+    -- `residual`: bytes behind the request in the session's read buffer when the worker runs (upgrade arm's buffer drain)
+    match ofHex hx, parseSess sess, ofHex residual with
+    | some d, some si, some r =>
+      let srv := mkServer st
+      match parseEnv bits si (reachesUserCode srv d) (!r.isEmpty) with
+      | some env => (st, showProcess srv env d)
+      | none => (st, "bad-op")
+    | _, _, _ => (st, "bad-op")
+  | ["hook", "drain", b] =>
+    match b with
+    | "0" => ({ st with drainHook := .ret () }, "ok")
+    | "thr" => ({ st with drainHook := .threw true }, "ok")
+    | "thx" => ({ st with drainHook := .threw false }, "ok")
+    | _ => (st, "bad-op")
   | ["dispatch", hx] =>
     match ofHex hx with
     | some d => (st, showOutcome (process (mkServer st) {} d))
     | none => (st, "bad-op")
+  | ["dispatchr", hx, residual] =>
+    -- one read = a complete request + bytes behind it: the worker finds them in the session buffer
+    match ofHex hx, ofHex residual with
+    | some d, some r => (st, showProcess (mkServer st) { bufferedAtUpgrade := !r.isEmpty } d)
+    | _, _ => (st, "bad-op")
   | ["overflow", _hx] => (st, showOutcome (.respond overflowWire true) ++ s!" queued={Gen.HttpRespond.poolQueueCap}")
+  | ["overflow", _hx, bits] =>
+    -- `sendErrorResponse` in an environment: bits = enqueueOk, _shutdown, transport present
+    match bits.toList.map (fun c => c == '1') with
+    | [enq, sh, tr] =>
+      let env : Env := { upAtSend := tr && !sh, enqueueOk := enq }
+      (st, showOutcome (outcomeOf env (overflowCalls env, false)) ++ s!" queued={Gen.HttpRespond.poolQueueCap}")
+    | _ => (st, "bad-op")
   | ["frame", heads, hx] =>
     match ofHex hx with
     | some d =>
